@@ -4,6 +4,7 @@ import Casket.Spec.Chain
 import Casket.Spec.Cond
 import Casket.Spec.Htpasswd
 import Casket.Spec.AuthConc
+import Casket.Spec.TplPool
 import Driver.C02
 /-
 Streams of C03.
@@ -348,10 +349,106 @@ def concJudge (f : List String) (out : String) : String :=
       | _, _ => "bad:unparsable:" ++ out
     | _ => "bad:unparsable:" ++ out
 
+/-! ### c03.tpl : a sequence of requests to one site with `templates` behind basicauth / internal
+
+  c03.tpl  site  files  steps
+     site    hex of lines:  basicauth <user> <pass> <res,res…> [<excl,…>] | internal <path> | templates <path> <.ext,.ext…>
+     files   hex of  /path=item,item,…;…     item:  t<n> literal text with token n | i/path  {{.Include "/path"}}
+             | x  an action that fails when executed | p  text that does not parse
+     steps   hex of  /path creds;…           creds: user:password or `-`; GET, sent one after the other to the same site
+     out     one  <status>:<elements>  per step, space separated; elements `.`-separated: token numbers, `{` per raw action
+  Request paths and include names are canonical rooted URLs and request paths have an extension
+  (anything else is outside the model: bad-case).  The model runs the sequence against an explicit
+  pool, every request drawing the buffer put back last (what sync.Pool does for sequential
+  requests); by C03_tpl_pool_unobservable any other choice gives the same answer.
+-/
+open Casket.TplPool in
+def parseItem (b : Bytes) : Option Casket.TplPool.Item :=
+  match b with
+  | 116 :: n => (parseNatBytes n).map Casket.TplPool.Item.lit
+  | 105 :: p => if p.head? = some slash ∧ clean p = p then some (.incl p) else none
+  | [120] => some .fail
+  | [112] => some .malformed
+  | _ => none
+
+open Casket.TplPool in
+def parseTSite (siteT filesT : Bytes) : Option TSite := do
+  let s0 : TSite := { auth := [], internal := [], rules := [], files := [] }
+  let s ← (splitOn 10 siteT).foldlM (fun (s : TSite) line =>
+    match wordsOf line with
+    | [] => some s
+    | d :: args =>
+      if d = b! "basicauth" then
+        match args with
+        | [u, p, res] => some { s with auth := s.auth ++ [{ user := u, pass := p, resources := commaList res, excludes := [] }] }
+        | [u, p, res, ex] => some { s with auth := s.auth ++ [{ user := u, pass := p, resources := commaList res, excludes := commaList ex }] }
+        | _ => none
+      else if d = b! "internal" then
+        match args with
+        | [p] => some { s with internal := s.internal ++ [p] }
+        | _ => none
+      else if d = b! "templates" then
+        match args with
+        | [p, exts] => some { s with rules := s.rules ++ [{ path := p, exts := commaList exts }] }
+        | _ => none
+      else none) s0
+  let files ← (if filesT = [] then [] else splitOn 59 filesT).mapM fun f =>
+    let kv := cut 61 f
+    if !kv.2.2 ∨ kv.1.head? ≠ some slash ∨ clean kv.1 ≠ kv.1 then none
+    else ((if kv.2.1 = [] then [] else splitOn 44 kv.2.1).mapM parseItem).map fun items => (kv.1, items)
+  pure { s with files := files }
+
+open Casket.TplPool in
+def parseTSteps (t : Bytes) : Option (List TReq) :=
+  (if t = [] then [] else splitOn 59 t).mapM fun st =>
+    match wordsOf st with
+    | [p, c] =>
+      if p.head? ≠ some slash ∨ clean p ≠ p ∨ pathExt p = [] then none
+      else
+        let c3 := cut 58 c
+        some { path := p, creds := if c = [45] then none else some (c3.1, c3.2.1) }
+    | _ => none
+
+def parseTCase : List String → Option (Casket.TplPool.TSite × List Casket.TplPool.TReq)
+  | [sH, fH, stH] => do
+    let s ← parseTSite (← Driver.unhex sH) (← Driver.unhex fH)
+    let steps ← parseTSteps (← Driver.unhex stH)
+    pure (s, steps)
+  | _ => none
+
+def tplFuel : Nat := 400
+
+open Casket.TplPool in
+def renderT : TResp → String
+  | .unauthorized => "401:"
+  | .notFound => "404:"
+  | .error => "500:"
+  | .rendered out => "200:" ++ ".".intercalate (out.map toString)
+  | .raw src => "200:" ++ ".".intercalate (src.map fun | .lit t => toString t | _ => "{")
+
+open Casket.TplPool in
+def tplModel (f : List String) : String :=
+  match parseTCase f with
+  | none => "bad-case"
+  | some (s, steps) => " ".intercalate ((run true tplFuel s [] (lifo steps)).map renderT)
+
+def tplJudge (f : List String) (out : String) : String :=
+  match parseTCase f with
+  | none => "bad:unparsable:case"
+  | some (s, steps) =>
+    let parts := out.splitOn " "
+    let toks : List (Option (List Nat)) := parts.map fun p =>
+      match p.splitOn ":" with
+      | [st, els] => if st.toNat?.isSome then some ((els.splitOn ".").filterMap String.toNat?) else none
+      | _ => none
+    if parts.length ≠ steps.length ∨ toks.any Option.isNone then "bad:unparsable:" ++ out
+    else Casket.TplPoolSpec.verdict tplFuel s (steps.zip (toks.map fun t => t.getD []))
+
 def streams : List Driver.Stream := [
   { name := "c03.chain", model := chainModel, judge := chainJudge },
   { name := "c03.multi", model := multiModel, judge := multiJudge },
-  { name := "c03.conc", model := concModel, judge := concJudge }
+  { name := "c03.conc", model := concModel, judge := concJudge },
+  { name := "c03.tpl", model := tplModel, judge := tplJudge }
 ]
 
 end Driver.C03
